@@ -270,7 +270,10 @@ def run(tier):
     for scope, ns in (("extended", "txtdbx"), ("basic", "txtdb")):
         stdoffs = (list(range(-59, 60)) + [-720, -719, -601, -271, -44, 330, 345, 525, 765, 839, 840]) if scope == "extended" else \
                   (list(range(-720, 841, 15)))
-        want_z, want_p, lines = {}, {}, []
+        want_z, want_p, want_ab, lines = {}, {}, {}, []
+
+        def zn_of(k_):
+            return "Txt/Z%d" % k_
         for k, off in enumerate(stdoffs):
             sv, at, fx = saves[k % len(saves)], ats[k % len(ats)], saves[(k * 7 + 3) % len(saves)]
             if scope == "basic":
@@ -279,9 +282,13 @@ def run(tier):
             pol = "Txt%d" % k
             if sv == 0:
                 sv = 60
-            lines.append("Rule %s 1990 max - Mar Sun>=8 %s%s %s D" % (pol, hm(at, k % 3), "" if suf == "w" else suf, hm(sv, (k + 1) % 3)))
-            lines.append("Rule %s 1990 max - Oct Sun>=8 2:00 0 S" % pol)
+            # LETTERs: one character, several characters (index into the policy's letters array: the first and the second
+            # in sorted order both occur), and '-' (no letter)
+            l1, l2 = [("D", "S"), ("DD", "SS"), ("-", "S"), ("XYZ", "AB")][k % 4]
+            lines.append("Rule %s 1990 max - Mar Sun>=8 %s%s %s %s" % (pol, hm(at, k % 3), "" if suf == "w" else suf, hm(sv, (k + 1) % 3), l1))
+            lines.append("Rule %s 1990 max - Oct Sun>=8 2:00 0 %s" % (pol, l2))
             want_p[pol] = (3, at, suf, sv)
+            want_ab[zn_of(k)] = ("T%sT" % ("" if l1 == "-" else l1), "T%sT" % l2)
             zn = "Txt/Z%d" % k
             if scope == "extended":
                 lines.append("Zone %s %s %s T%%sT 2020 Jun 1 %s%s" % (zn, hm(off, k % 3), pol, hm(ats[(k + 5) % len(ats)], (k + 2) % 3), "" if suf == "w" else suf))
@@ -308,7 +315,7 @@ def run(tier):
             v.violation("c12:generated-code-does-not-compile", "tables generated from admissible text values do not compile", {"scope": scope, "error": str(e)[-800:]})
             continue
         programs += 1
-        rt = run_shards(texe, [["--db", scope]], san="rec", timeout=900)
+        rt = run_shards(texe, [["--db", scope, "--abbrev"]], san="rec", timeout=900)
         v.absorb(rt, "codec(text)")
         for d in rt.infos:
             if d["kind"] != scope:
@@ -329,6 +336,11 @@ def run(tier):
                                 {"scope": scope, "zone": zn, "decoded (stdoff, fixed save, until time, suffix)": got, "source": eras,
                                  "lines": [l for l in lines if zn + " " in l or l.startswith("\t")][:1]})
                     continue
+                # the letters as the processor substitutes them into the FORMAT (Mar rule in force in July, Oct rule in December)
+                if (z.get("abbrevJul2010"), z.get("abbrevDec2010")) != want_ab[zn]:
+                    v.violation("c12:text-value-decodes-differently", "a LETTER written in a Rule line does not come back in the abbreviation the processor builds from the generated table",
+                                {"scope": scope, "zone": zn, "abbreviations (Jul 2010, Dec 2010)": [z.get("abbrevJul2010"), z.get("abbrevDec2010")], "expected": list(want_ab[zn])})
+                counters["text.%s.abbreviations" % scope] = counters.get("text.%s.abbreviations" % scope, 0) + 2
                 pid = z["eras"][0]["policy"]
                 rr = {(r_["inMonth"], r_["atTimeMinutes"], r_["atTimeSuffix"], r_["deltaMinutes"]) for r_ in pols[pid]["rules"]} if pid >= 0 else set()
                 if want_p[pol] not in rr:
